@@ -400,6 +400,8 @@ PRIM_CLASSES = {
     'dict': lambda x: z3.And(S.is_ref(x), S.tyof(S.addr(x)) == S.type_id('dict')),
     'set': lambda x: z3.And(S.is_ref(x), S.tyof(S.addr(x)) == S.type_id('set')),
 }
+# numpy scalar classes: numpy scalars are OUTSIDE the value universe of the encoding (ints are Python ints), so no modelled value is an instance of them
+NUMPY_SCALAR_CLASSES = ('np.integer', 'numpy.integer', 'np.int64', 'numpy.int64', 'np.int32', 'numpy.int32', 'np.floating', 'numpy.floating', 'np.float64', 'numpy.float64', 'np.number', 'numpy.number')
 
 
 def isinstance_formula(ex, v, cls_node, st):
@@ -409,6 +411,9 @@ def isinstance_formula(ex, v, cls_node, st):
     short = name.split('.')[-1]
     if name in PRIM_CLASSES:
         return PRIM_CLASSES[name](v.t)
+    if name in NUMPY_SCALAR_CLASSES:
+        ex.used_trusted.add('numpy scalars are outside the value universe: isinstance(x, <numpy scalar class>) is False for every modelled value (ints are Python ints)')
+        return z3.BoolVal(False)
     ci = ex.reg.classes.get(short)
     if ci is None:
         raise Unsupported(f'isinstance against unknown class {name}')
